@@ -16,8 +16,8 @@ import (
 )
 
 type Blk struct {
-	Kind string // task seq par if loop sub skip incl ctask
-	ID   int    // task, ctask: task number; if/loop: variable index; incl: first variable; gateways get numbers at compile time
+	Kind string // task seq par if loop sub skip incl ctask end
+	ID   int    // task, ctask: task number; if/loop: variable index; incl: first variable; end: number of the end event; gateways get numbers at compile time
 	Kids []*Blk // seq, par: n kids; if: [then, else]; loop, sub: [body]; incl: [a, b, default]; ctask: [then, else]
 	N    int    // loop: number of iterations the driver asks for; incl: second variable; ctask: variable
 }
@@ -48,8 +48,35 @@ func (b *Blk) Coq() string {
 		return fmt.Sprintf("(BIncl %d %d %s %s %s)", b.ID, b.N, b.Kids[0].Coq(), b.Kids[1].Coq(), b.Kids[2].Coq())
 	case "ctask":
 		return fmt.Sprintf("(BCond %d %d %s %s)", b.ID, b.N, b.Kids[0].Coq(), b.Kids[1].Coq())
+	case "end":
+		return fmt.Sprintf("(BEnd %d)", b.ID)
 	}
 	panic("kind " + b.Kind)
+}
+
+// mayExit: can a token leave the block (false: every path through it ends in an end event of its own)
+func (b *Blk) mayExit() bool {
+	switch b.Kind {
+	case "end":
+		return false
+	case "seq", "par":
+		for _, k := range b.Kids {
+			if !k.mayExit() {
+				return false
+			}
+		}
+		return true
+	case "if", "ctask", "incl":
+		for _, k := range b.Kids {
+			if k.mayExit() {
+				return true
+			}
+		}
+		return false
+	case "loop":
+		return b.Kids[0].mayExit()
+	}
+	return true
 }
 
 func (b *Blk) String() string { return b.Coq() }
@@ -88,6 +115,16 @@ type blkCompiler struct {
 
 func (c *blkCompiler) fresh(prefix string) string { c.n++; return fmt.Sprintf("%s%d", prefix, c.n) }
 
+// noExit as the exit node: no token leaves the block (all its paths end in end events of their own)
+const noExit = "!"
+
+// link connects the exit of a compiled block to a node, unless no token leaves the block
+func link(p *Prog, out, to, cond string) {
+	if out != noExit {
+		p.Flow(out, to, cond)
+	}
+}
+
 // compile adds the block to p and returns its entry and exit node ids ("" , "" for an empty block: the
 // caller connects its predecessor directly to its successor).  n-ary seq/par compile as right-nested
 // binary blocks, exactly as Coq() prints them.
@@ -95,6 +132,10 @@ func (c *blkCompiler) compile(p *Prog, b *Blk) (in, out string) {
 	switch b.Kind {
 	case "skip":
 		return "", ""
+	case "end":
+		id := fmt.Sprintf("E%d", b.ID)
+		p.Node("end", id)
+		return id, noExit
 	case "task":
 		id := fmt.Sprintf("T%d", b.ID)
 		n := p.Node("task", id)
@@ -108,6 +149,9 @@ func (c *blkCompiler) compile(p *Prog, b *Blk) (in, out string) {
 			return c.compile(p, b.Kids[0])
 		}
 		in1, out1 := c.compile(p, b.Kids[0])
+		if out1 == noExit { // what follows an end event is unreachable
+			return in1, noExit
+		}
 		in2, out2 := c.compile(p, &Blk{Kind: "seq", Kids: b.Kids[1:]})
 		if in1 == "" {
 			return in2, out2
@@ -133,21 +177,23 @@ func (c *blkCompiler) compile(p *Prog, b *Blk) (in, out string) {
 				p.Flow(f, j, "")
 			} else {
 				p.Flow(f, ki, "")
-				p.Flow(ko, j, "")
+				link(p, ko, j, "")
 			}
 		}
 		return f, j
 	case "if":
 		x, m := c.fresh("X"), c.fresh("M")
 		xn := p.Node("xor", x)
-		p.Node("xor", m)
+		if b.mayExit() {
+			p.Node("xor", m)
+		}
 		then := func() {
 			ti, to := c.compile(p, b.Kids[0])
 			if ti == "" {
 				p.Flow(x, m, fmt.Sprintf("v%d", b.ID))
 			} else {
 				p.Flow(x, ti, fmt.Sprintf("v%d", b.ID))
-				p.Flow(to, m, "")
+				link(p, to, m, "")
 			}
 		}
 		els := func() {
@@ -156,7 +202,7 @@ func (c *blkCompiler) compile(p *Prog, b *Blk) (in, out string) {
 				xn.Default = p.Flow(x, m, "").ID
 			} else {
 				xn.Default = p.Flow(x, ei, "").ID
-				p.Flow(eo, m, "")
+				link(p, eo, m, "")
 			}
 		}
 		if c.n%4 < 2 { // the order in which the outgoing flows are listed must not matter: default flow last / first
@@ -166,14 +212,17 @@ func (c *blkCompiler) compile(p *Prog, b *Blk) (in, out string) {
 			els()
 			then()
 		}
+		if !b.mayExit() {
+			return x, noExit
+		}
 		return x, m
 	case "loop": // merge -> body -> split; split -[v]-> merge; default -> out
 		m, x := c.fresh("M"), c.fresh("X")
 		p.Node("xor", m)
 		xn := p.Node("xor", x)
 		bi, bo := c.compile(p, b.Kids[0])
-		if bi == "" {
-			panic("loop with empty body")
+		if bi == "" || bo == noExit {
+			panic("loop with an empty body or a body that no token leaves")
 		}
 		p.Flow(m, bi, "")
 		p.Flow(bo, x, "")
@@ -185,7 +234,9 @@ func (c *blkCompiler) compile(p *Prog, b *Blk) (in, out string) {
 	case "incl":
 		f, j := c.fresh("IF"), c.fresh("IJ")
 		fn := p.Node("incl", f)
-		p.Node("incl", j)
+		if b.mayExit() {
+			p.Node("incl", j)
+		}
 		for i, k := range b.Kids {
 			cond := ""
 			if i == 0 {
@@ -199,11 +250,14 @@ func (c *blkCompiler) compile(p *Prog, b *Blk) (in, out string) {
 				fl = p.Flow(f, j, cond)
 			} else {
 				fl = p.Flow(f, ki, cond)
-				p.Flow(ko, j, "")
+				link(p, ko, j, "")
 			}
 			if i == 2 {
 				fn.Default = fl.ID
 			}
+		}
+		if !b.mayExit() {
+			return f, noExit
 		}
 		return f, j
 	case "ctask":
@@ -211,7 +265,9 @@ func (c *blkCompiler) compile(p *Prog, b *Blk) (in, out string) {
 		n := p.Node("task", id)
 		n.Results = []string{"v0", "v1", "v2", "v3"}
 		m := c.fresh("M")
-		p.Node("xor", m)
+		if b.mayExit() {
+			p.Node("xor", m)
+		}
 		for i, k := range b.Kids {
 			cond := fmt.Sprintf("v%d", b.N)
 			if i == 1 {
@@ -222,8 +278,11 @@ func (c *blkCompiler) compile(p *Prog, b *Blk) (in, out string) {
 				p.Flow(id, m, cond)
 			} else {
 				p.Flow(id, ki, cond)
-				p.Flow(ko, m, "")
+				link(p, ko, m, "")
 			}
+		}
+		if !b.mayExit() {
+			return id, noExit
 		}
 		return id, m
 	case "sub":
@@ -234,12 +293,14 @@ func (c *blkCompiler) compile(p *Prog, b *Blk) (in, out string) {
 		c.subs = append(c.subs, [2]string{s, st})
 		n.Sub.Node("start", st)
 		bi, bo := c.compile(n.Sub, b.Kids[0])
-		n.Sub.Node("end", en)
+		if bo != noExit {
+			n.Sub.Node("end", en)
+		}
 		if bi == "" {
 			n.Sub.Flow(st, en, "")
 		} else {
 			n.Sub.Flow(st, bi, "")
-			n.Sub.Flow(bo, en, "")
+			link(n.Sub, bo, en, "")
 		}
 		return s, s
 	}
@@ -253,12 +314,14 @@ func BlkProgSubs(b *Blk) (*Prog, [][2]string) {
 	p := &Prog{}
 	p.Node("start", "start")
 	in, out := c.compile(p, b)
-	p.Node("end", "end")
+	if out != noExit {
+		p.Node("end", "end")
+	}
 	if in == "" {
 		p.Flow("start", "end", "")
 	} else {
 		p.Flow("start", in, "")
-		p.Flow(out, "end", "")
+		link(p, out, "end", "")
 	}
 	return p, c.subs
 }
@@ -287,7 +350,7 @@ func SubEvents(subs [][2]string, log []Ev) string {
 // ---- Go copy of the block semantics (expectation generator only) ----
 
 type brun struct {
-	kind string // done task seq par loop sub
+	kind string // done ended task seq par incl loop sub
 	id   int
 	a, b *brun
 	rest *Blk
@@ -295,11 +358,40 @@ type brun struct {
 }
 
 var bdone = &brun{kind: "done"}
+var bended = &brun{kind: "ended"}
 
-func bstart(env []bool, b *Blk) *brun {
+// fin: the block is finished and one token leaves it; ended: finished, no token leaves it (Model/Blocks.v)
+func (r *brun) fin() bool {
+	switch r.kind {
+	case "done":
+		return true
+	case "par":
+		return r.a.fin() && r.b.fin()
+	case "sub":
+		return r.a.fin() || r.a.ended()
+	case "incl":
+		return (r.a.fin() || r.a.ended()) && (r.b.fin() || r.b.ended()) && (r.a.fin() || r.b.fin())
+	}
+	return false
+}
+func (r *brun) ended() bool {
+	switch r.kind {
+	case "ended":
+		return true
+	case "incl":
+		return r.a.ended() && r.b.ended()
+	}
+	return false
+}
+
+// bstart: ends collects the end events reached on the way
+func bstart(env []bool, b *Blk, ends *[]int) *brun {
 	switch b.Kind {
 	case "skip":
 		return bdone
+	case "end":
+		*ends = append(*ends, b.ID)
+		return bended
 	case "task":
 		return &brun{kind: "task", id: b.ID}
 	case "seq":
@@ -307,73 +399,68 @@ func bstart(env []bool, b *Blk) *brun {
 			return bdone
 		}
 		if len(b.Kids) == 1 {
-			return bstart(env, b.Kids[0])
+			return bstart(env, b.Kids[0], ends)
 		}
-		return bseq(env, bstart(env, b.Kids[0]), &Blk{Kind: "seq", Kids: b.Kids[1:]})
+		return bseq(env, bstart(env, b.Kids[0], ends), &Blk{Kind: "seq", Kids: b.Kids[1:]}, ends)
 	case "par":
 		if len(b.Kids) == 0 {
 			return bdone
 		}
 		if len(b.Kids) == 1 {
-			return bstart(env, b.Kids[0])
+			return bstart(env, b.Kids[0], ends)
 		}
-		return bpar(bstart(env, b.Kids[0]), bstart(env, &Blk{Kind: "par", Kids: b.Kids[1:]}))
+		x := bstart(env, b.Kids[0], ends)
+		return &brun{kind: "par", a: x, b: bstart(env, &Blk{Kind: "par", Kids: b.Kids[1:]}, ends)}
 	case "if":
 		if env[b.ID] {
-			return bstart(env, b.Kids[0])
+			return bstart(env, b.Kids[0], ends)
 		}
-		return bstart(env, b.Kids[1])
+		return bstart(env, b.Kids[1], ends)
 	case "loop":
-		return bloop(env, bstart(env, b.Kids[0]), b)
+		return bloop(env, bstart(env, b.Kids[0], ends), b, ends)
 	case "sub":
-		return bsub(bstart(env, b.Kids[0]))
+		return &brun{kind: "sub", a: bstart(env, b.Kids[0], ends)}
 	case "incl":
 		if env[b.ID] || env[b.N] {
-			a, bb := bdone, bdone
+			a, bb := bended, bended
 			if env[b.ID] {
-				a = bstart(env, b.Kids[0])
+				a = bstart(env, b.Kids[0], ends)
 			}
 			if env[b.N] {
-				bb = bstart(env, b.Kids[1])
+				bb = bstart(env, b.Kids[1], ends)
 			}
-			return bpar(a, bb)
+			return &brun{kind: "incl", a: a, b: bb}
 		}
-		return bstart(env, b.Kids[2])
+		return bstart(env, b.Kids[2], ends)
 	case "ctask":
-		return bseq(env, &brun{kind: "task", id: b.ID}, &Blk{Kind: "if", ID: b.N, Kids: b.Kids})
+		return bseq(env, &brun{kind: "task", id: b.ID}, &Blk{Kind: "if", ID: b.N, Kids: b.Kids}, ends)
 	}
 	panic("kind")
 }
 
-func bseq(env []bool, r *brun, rest *Blk) *brun {
-	if r.kind == "done" {
-		return bstart(env, rest)
+func bseq(env []bool, r *brun, rest *Blk, ends *[]int) *brun {
+	if r.fin() {
+		return bstart(env, rest, ends)
+	}
+	if r.ended() {
+		return bended
 	}
 	return &brun{kind: "seq", a: r, rest: rest}
 }
-func bpar(a, b *brun) *brun {
-	if a.kind == "done" && b.kind == "done" {
-		return bdone
-	}
-	return &brun{kind: "par", a: a, b: b}
-}
-func bsub(r *brun) *brun {
-	if r.kind == "done" {
-		return bdone
-	}
-	return &brun{kind: "sub", a: r}
-}
-func bloop(env []bool, r *brun, l *Blk) *brun {
+func bloop(env []bool, r *brun, l *Blk, ends *[]int) *brun {
 	fuel := 64
-	for r.kind == "done" && fuel > 0 {
+	for r.fin() && fuel > 0 {
 		if !env[l.ID] {
 			return bdone
 		}
-		r = bstart(env, l.Kids[0])
+		r = bstart(env, l.Kids[0], ends)
 		fuel--
 	}
-	if r.kind == "done" {
+	if r.fin() {
 		return bdone
+	}
+	if r.ended() {
+		return bended
 	}
 	return &brun{kind: "loop", a: r, rest: l}
 }
@@ -384,14 +471,14 @@ func (r *brun) pending(out *[]int) {
 		*out = append(*out, r.id)
 	case "seq", "loop", "sub":
 		r.a.pending(out)
-	case "par":
+	case "par", "incl":
 		r.a.pending(out)
 		r.b.pending(out)
 	}
 }
 
 // answer the pending task id (env already updated with its writes)
-func (r *brun) answer(env []bool, id int) *brun {
+func (r *brun) answer(env []bool, id int, ends *[]int) *brun {
 	switch r.kind {
 	case "task":
 		if r.id == id {
@@ -399,13 +486,14 @@ func (r *brun) answer(env []bool, id int) *brun {
 		}
 		return r
 	case "seq":
-		return bseq(env, r.a.answer(env, id), r.rest)
+		return bseq(env, r.a.answer(env, id, ends), r.rest, ends)
 	case "loop":
-		return bloop(env, r.a.answer(env, id), r.rest)
+		return bloop(env, r.a.answer(env, id, ends), r.rest, ends)
 	case "sub":
-		return bsub(r.a.answer(env, id))
-	case "par":
-		return bpar(r.a.answer(env, id), r.b.answer(env, id))
+		return &brun{kind: "sub", a: r.a.answer(env, id, ends)}
+	case "par", "incl":
+		x := r.a.answer(env, id, ends)
+		return &brun{kind: r.kind, a: x, b: r.b.answer(env, id, ends)}
 	}
 	return r
 }
@@ -418,6 +506,25 @@ type blkGen struct {
 	loops int
 	full  bool // also inclusive blocks and tasks with conditional outgoing flows (C01)
 	noGw  int  // > 0 while generating the branches of an inclusive block: no parallel/inclusive block there (known finding C01-gateway-nested-in-inclusive)
+	ends  bool // also end events of their own inside exclusive / inclusive / conditional branches (C01)
+	noEnd int  // > 0 while generating the branches of a parallel block: an end event there would starve the join
+	nend  int
+}
+
+// endBranch: a branch that finishes in an end event of its own, at once or after one task
+func (g *blkGen) endBranch() *Blk {
+	g.nend++
+	e := &Blk{Kind: "end", ID: g.nend}
+	if g.rng.Intn(2) == 0 {
+		return e
+	}
+	g.ntask++
+	return &Blk{Kind: "seq", Kids: []*Blk{{Kind: "task", ID: g.ntask}, e}}
+}
+func (g *blkGen) maybeEnd(b *Blk, nkids int) {
+	if g.ends && g.noEnd == 0 && g.rng.Intn(4) == 0 {
+		b.Kids[g.rng.Intn(nkids)] = g.endBranch()
+	}
 }
 
 // gen produces a block with at most `size` tasks; loopTask remembers, per loop, the task whose answers steer it
@@ -438,6 +545,7 @@ func (g *blkGen) gen(size, depth int, allowLoop bool) *Blk {
 			if g.rng.Intn(3) == 0 {
 				b.Kids[g.rng.Intn(3)] = &Blk{Kind: "skip"}
 			}
+			g.maybeEnd(b, 3)
 			return b
 		case k < 4:
 			g.ntask++
@@ -446,6 +554,7 @@ func (g *blkGen) gen(size, depth int, allowLoop bool) *Blk {
 			if g.rng.Intn(3) == 0 {
 				b.Kids[g.rng.Intn(2)] = &Blk{Kind: "skip"}
 			}
+			g.maybeEnd(b, 2)
 			return b
 		}
 	}
@@ -460,9 +569,11 @@ func (g *blkGen) gen(size, depth int, allowLoop bool) *Blk {
 	case k < 6 && g.noGw == 0:
 		n := 2 + g.rng.Intn(2)
 		b := &Blk{Kind: "par"}
+		g.noEnd++
 		for i := 0; i < n; i++ {
 			b.Kids = append(b.Kids, g.gen(size/n, depth-1, false)) // a loop inside a parallel branch re-enters the join: kept out (C03 covers joins)
 		}
+		g.noEnd--
 		return b
 	case k < 8:
 		b := &Blk{Kind: "if", ID: g.rng.Intn(3)} // v0..v2 steer branches; v3 is reserved for loops
@@ -470,6 +581,7 @@ func (g *blkGen) gen(size, depth int, allowLoop bool) *Blk {
 		if g.rng.Intn(4) == 0 {
 			b.Kids[g.rng.Intn(2)] = &Blk{Kind: "skip"}
 		}
+		g.maybeEnd(b, 2)
 		return b
 	case k < 9 && allowLoop && g.loops == 0:
 		g.loops++
@@ -512,10 +624,13 @@ type blkStep struct {
 	task    int
 	writes  [4]int // -1 = not written, 0/1 value
 	pending []int  // observed pending requests after the answer (sorted)
+	ends    []int  // end events (of their own) reached by the step (sorted)
 }
 
 type blkObs struct {
 	first     []int // pending after start
+	ends0     []int // end events reached at start
+	finalEnd  bool  // the program's final end event was reached
 	steps     []blkStep
 	completed bool
 	vars      [4]bool
@@ -563,6 +678,48 @@ func waitPending(in *Inst, want []int) []int {
 	return pendingInts(in)
 }
 
+// endEvents lists the end events of their own (nodes E<k>) that tokens have reached so far, with multiplicity, sorted
+func endEvents(in *Inst) []int {
+	var out []int
+	for _, e := range in.Log() {
+		var k int
+		// a token arriving at the end event (the completion traces of tokens inside a sub-process are not forwarded)
+		if e.K == "visit" && strings.HasPrefix(e.N, "E") {
+			if _, err := fmt.Sscanf(e.N, "E%d", &k); err == nil {
+				out = append(out, k)
+			}
+		}
+	}
+	sort.Ints(out)
+	return out
+}
+
+// waitEnds waits until the end events reached so far are `seen` plus `want` (up to tmoStep) and returns the new ones
+func waitEnds(in *Inst, seen []int, want []int) []int {
+	total := sortedCopy(append(append([]int{}, seen...), want...))
+	deadline := time.Now().Add(tmoStep)
+	for time.Now().Before(deadline) {
+		if intsEq(endEvents(in), total) {
+			break
+		}
+		time.Sleep(200 * time.Microsecond)
+	}
+	// the new ones: multiset difference
+	cnt := map[int]int{}
+	for _, k := range seen {
+		cnt[k]++
+	}
+	var fresh []int
+	for _, k := range endEvents(in) {
+		if cnt[k] > 0 {
+			cnt[k]--
+		} else {
+			fresh = append(fresh, k)
+		}
+	}
+	return fresh
+}
+
 // RunBlk drives one instance of the program: answers pending tasks in the order chosen by choose (index
 // into the sorted observed pending list), writing variables as writesFor decides.
 func RunBlk(b *Blk, env0 [4]bool, choose func(n int) int, writesFor func(task, nth int) [4]int, maxSteps int, opts ...bpmn.Option) blkObs {
@@ -578,13 +735,19 @@ func RunBlk(b *Blk, env0 [4]bool, choose func(n int) int, writesFor func(task, n
 	in, err := StartInst(defs, InstOpt{Vars: vars, Opts: opts})
 	must(err)
 	defer in.Close()
-	r := bstart(env, b)
+	var wantEnds, seenEnds []int
+	r := bstart(env, b, &wantEnds)
 	var want []int
 	r.pending(&want)
 	o.first = waitPending(in, sortedCopy(want))
+	o.ends0 = waitEnds(in, seenEnds, wantEnds)
+	seenEnds = append(seenEnds, o.ends0...)
+	if !intsEq(o.ends0, sortedCopy(wantEnds)) {
+		o.problem = fmt.Sprintf("after the start: end events reached %v, token game expects %v", o.ends0, sortedCopy(wantEnds))
+	}
 	cur := o.first
 	nth := map[int]int{}
-	for len(cur) > 0 && len(o.steps) < maxSteps {
+	for len(cur) > 0 && len(o.steps) < maxSteps && o.problem == "" {
 		t := cur[choose(len(cur))]
 		nth[t]++
 		w := writesFor(t, nth[t])
@@ -599,13 +762,20 @@ func RunBlk(b *Blk, env0 [4]bool, choose func(n int) int, writesFor func(task, n
 			o.problem = fmt.Sprintf("pending task T%d could not be answered", t)
 			break
 		}
-		r = r.answer(env, t)
+		wantEnds = nil
+		r = r.answer(env, t, &wantEnds)
 		want = nil
 		r.pending(&want)
 		cur = waitPending(in, sortedCopy(want))
-		o.steps = append(o.steps, blkStep{task: t, writes: w, pending: cur})
+		fresh := waitEnds(in, seenEnds, wantEnds)
+		seenEnds = append(seenEnds, fresh...)
+		o.steps = append(o.steps, blkStep{task: t, writes: w, pending: cur, ends: fresh})
 		if !intsEq(cur, sortedCopy(want)) {
 			o.problem = fmt.Sprintf("after answering T%d: pending requests %v, token game expects %v", t, cur, sortedCopy(want))
+			break
+		}
+		if !intsEq(fresh, sortedCopy(wantEnds)) {
+			o.problem = fmt.Sprintf("after answering T%d: end events reached %v, token game expects %v", t, fresh, sortedCopy(wantEnds))
 			break
 		}
 	}
@@ -628,6 +798,10 @@ func RunBlk(b *Blk, env0 [4]bool, choose func(n int) int, writesFor func(task, n
 	}
 	o.log = in.Log()
 	o.landmarks = countEv(o.log, "other", "*")
+	o.finalEnd = countEv(o.log, "complete", "end") > 0
+	if o.problem == "" && o.completed && o.finalEnd != r.fin() {
+		o.problem = fmt.Sprintf("the program's final end event reached: %v, token game expects %v", o.finalEnd, r.fin())
+	}
 	return o
 }
 
@@ -640,10 +814,17 @@ func (o *blkObs) CoqScript() string {
 				ws = append(ws, fmt.Sprintf("(%d,%s)", i, map[bool]string{true: "true", false: "false"}[x == 1]))
 			}
 		}
-		s = append(s, fmt.Sprintf("(%d,[%s],%s)", st.task, strings.Join(ws, ";"), natList(st.pending)))
+		s = append(s, fmt.Sprintf("(%d,[%s],%s,%s)", st.task, strings.Join(ws, ";"), natList(st.pending), natList(st.ends)))
 	}
 	return "[" + strings.Join(s, ";") + "]"
 }
+
+// CoqCase: the case tuple of Corr/C12corr.v
+func (o *blkObs) CoqCase(b *Blk, env0 [4]bool, subs string) string {
+	return fmt.Sprintf("(%s,%s,(%s,%s),%s,%s,%v,%s)", b.Coq(), envCoq(env0), natList(o.first), natList(o.ends0), o.CoqScript(), envCoq(o.vars), o.finalEnd, subs)
+}
+
+const blkCaseType = "blk * list bool * (list nat * list nat) * list ostep * list bool * bool * list (list nat)"
 
 func envCoq(e [4]bool) string {
 	var s []string
